@@ -72,6 +72,7 @@ Definition decode (code : Z) (a : list Z) (rows : list (list Z)) : option op :=
   | 71, [d; s; f] => Some (MapOp d s f)
   | 72, [d; s; f] => Some (MapRef d s f)
   | 73, [d; s] => Some (CloneOp d s)
+  | 76, [d; s] => Some (CloneFrom d s)
   | 74, [d; s] => Some (NegOp d s)
   | 75, [d; s] => Some (NegRef d s)
   | 80, [d; x; y; f] => Some (Ew d x y f)
